@@ -137,7 +137,8 @@ func VerifC09AndOr() {
 	bind := map[string]any{"a": a, "b": b, "c": c}
 	nd.Assert(c09Bool("a and b", bind) == (ta && tb), "and-truth-table")
 	nd.Assert(c09Bool("a or b", bind) == (ta || tb), "or-truth-table")
-	// chains associate to the left: (a or b) and c
-	nd.Assert(c09Bool("a or b and c", bind) == ((ta || tb) && tc), "chained-and-or")
+	// a chain is some parenthesisation of its operands (the statement fixes no associativity)
+	ch := c09Bool("a or b and c", bind)
+	nd.Assert(ch == ((ta || tb) && tc) || ch == (ta || (tb && tc)), "chained-and-or-is-a-boolean-combination")
 	nd.Reach("C09.andor")
 }
